@@ -10,7 +10,8 @@
    Side conditions of soundness (all needed, see notes/C11.md):
      cfg_consts G       the tables contain constants only (initial values are constants),
      env_ok G tau QT I  I gives static fluents / interpreted functions their table values, respects the declared user
-                        types (objects of unrelated types are distinct), and quantified types (QT) have an object,
+                        types (objects of unrelated types are distinct), and quantified types (QT) have an object
+                        (without this last clause the CODE deviates: C11_unused_quantifier_empty_type_refuted below),
      wfx tau QT S e     variables are annotated with their type tau, no quantifier rebinds a variable in scope, bound
                         variables of one quantifier are distinct, fluent arguments contain no quantifier
                         (= FNode.substitute is capture-free where walk_exists uses it). *)
@@ -49,11 +50,20 @@ Theorem C11_simp_sound_any_fuel :
 Proof. exact simp_sound_any_fuel. Qed.
 Print Assumptions C11_simp_sound_any_fuel.
 
+(* where the implementation raises (walk_div on a divisor that simplifies to the constant 0: ZeroDivisionError /
+   AssertionError) the expression has no value under any admissible interpretation *)
+Theorem C11_raises_only_without_value :
+  forall G tau QT strict S n e I,
+    cfg_consts G -> wfx tau QT S e = true -> env_ok G tau QT I -> raises G strict n e = true -> eval false e I = None.
+Proof. exact raises_only_without_value. Qed.
+Print Assumptions C11_raises_only_without_value.
+
 (* ---------------------------------------------------------------- non-vacuity: a world with one user type (0) and two
    objects, a Boolean fluent 0 true exactly on object 0;  Exists v. (f(v) and v == o0)  |->  f(o0) *)
 Definition G0 : cfg :=
   {| obj_ty := fun o => if (o <? 2)%N then Some 0%N else None;
      par_ty := fun _ => None; fl_ty := fun _ => None; if_ty := fun _ => None; anc := fun _ => [];
+     empty_ty := fun _ => false;
      stat := fun _ _ => None; itab := fun _ _ => None |}.
 Definition I0 : interp :=
   {| fl := fun f args => match f, args with 0%N, [VObj o] => Some (VBool (o =? 0)%N) | _, _ => None end;
@@ -91,3 +101,40 @@ Example C11_simplify_idempotent_nonvacuous :
   simplify G0 (EPlus [EParam 1; EInt 4]) = Some (EPlus [EParam 1; EInt 4]) /\
   simplify G0 e0 = Some (EFluent 0 [EObj 0]).
 Proof. split; [exact G0_consts|]. repeat split; vm_compute; reflexivity. Qed.
+
+Example C11_raises_nonvacuous :
+  raises G0 true 3 (ELe (EDiv (EInt 3) (EMinus (EInt 2) (EInt 2))) (EInt 1)) = true /\
+  eval false (ELe (EDiv (EInt 3) (EMinus (EInt 2) (EInt 2))) (EInt 1)) I0 = None.
+Proof. split; vm_compute; reflexivity. Qed.
+
+(* ---------------------------------------------------------------- finding C11-empty-type-unused-quantifier
+   The hypothesis "quantified types have an object" of C11_simplify_sound cannot be dropped for the problem-less simplifier
+   (e.simplify(): empty_ty = fun _ => false): user type 5 has no object, fluent 1 is false;
+   Forall v:5. f1  is vacuously true but simplifies to f1 (false);  Exists v:5. not f1  is false but simplifies to not f1 (true).
+   Simplifier(env, problem) knows the objects ([empty_ty G 5 = true], fix commit 43bc1e9) and keeps the quantifier. *)
+Definition I5 : interp :=
+  {| fl := fun f args => match f, args with 1%N, [] => Some (VBool false) | _, _ => None end;
+     par := fun _ => None; var := fun _ => None; ifun := fun _ _ => None;
+     objs := fun t => if (t =? 0)%N then [0%N; 1%N] else [] |}.
+Definition G5 : cfg :=
+  {| obj_ty := obj_ty G0; par_ty := par_ty G0; fl_ty := fl_ty G0; if_ty := if_ty G0; anc := anc G0;
+     empty_ty := fun t => (t =? 5)%N; stat := stat G0; itab := itab G0 |}.
+
+Theorem C11_unused_quantifier_empty_type_refuted :
+  exists G tau e1 e1' e2 e2' I,
+    cfg_consts G /\ (forall t, empty_ty G t = false) /\
+    wfx tau (fun _ => true) [] e1 = true /\ wfx tau (fun _ => true) [] e2 = true /\ objs I 5%N = [] /\
+    simplify G e1 = Some e1' /\ eval false e1 I = Some (VBool true) /\ eval false e1' I = Some (VBool false) /\
+    simplify G e2 = Some e2' /\ eval false e2 I = Some (VBool false) /\ eval false e2' I = Some (VBool true).
+Proof.
+  exists G0, (fun _ => 5%N), (EForall [(9%N, 5%N)] (EFluent 1 [])), (EFluent 1 []),
+         (EExists [(9%N, 5%N)] (ENot (EFluent 1 []))), (ENot (EFluent 1 [])), I5.
+  split; [exact G0_consts|]. split; [reflexivity|]. repeat split; vm_compute; reflexivity.
+Qed.
+Print Assumptions C11_unused_quantifier_empty_type_refuted.
+
+(* with the problem's objects known, the unused variable over the empty type is kept and the value is preserved *)
+Example C11_problem_aware_keeps_empty_quantifier :
+  simplify G5 (EForall [(9%N, 5%N)] (EFluent 1 [])) = Some (EForall [(9%N, 5%N)] (EFluent 1 [])) /\
+  eval false (EForall [(9%N, 5%N)] (EFluent 1 [])) I5 = Some (VBool true).
+Proof. split; vm_compute; reflexivity. Qed.
